@@ -77,6 +77,8 @@ pub struct Snapshot {
     pub has_key: bool,
     pub cipher_nonce: u64,
     pub cipher_has_key: bool,
+    /// the key that `restore` would re-install after a failed call
+    pub checkpoint_key: [u8; CIPHERKEYLEN],
     pub s_on: bool,
     pub e_on: bool,
     pub rs: [u8; MAXDHLEN],
@@ -184,6 +186,7 @@ pub fn snapshot(hs: &HandshakeState) -> Snapshot {
         has_key,
         cipher_nonce,
         cipher_has_key,
+        checkpoint_key: hs.symmetricstate.verif_checkpoint_key(),
         s_on: hs.s.is_on(),
         e_on: hs.e.is_on(),
         rs: *hs.rs,
